@@ -40,6 +40,7 @@ META = dict(
                  "ties (two equally near edges / intervals) may be resolved either way",
                  "constants that are floats in the source (c, sqrt(3), 0.5, 1e-4) are their exact rational values; the CFL bound is demanded up to a relative 1e-9",
                  "uniformity detection is pinned down except for a relative 1e-9 band around the documented 1e-4 tolerance edge (the source evaluates it in floats)",
+                 "CFL bound: proved per regime of the uniformity predicate; on the square-root branch the proof is staged (minima, sqrt argument, dt*c*S = cf, S > 0, plus an algebraic lemma); the all-symbolic cases repeat it at two seeded width sets",
                  "UniformGrid nearest-interval obligations: the two rounded quantities are not within 1e-3 of a rounding tie",
                  "cases other than construct-*/uniform-resolve-*: edge arrays and np.diff widths injected into an instance built by the real constructor (the construct-* cases prove that is what __post_init__ stores)"],
     outside="cell counts beyond the bound; QuasiUniformGrid; float round-off (near-ties); calculate_time_offset_yee, polygon masks",
@@ -677,6 +678,11 @@ def _case_construct(c, st, G, case):
         regimes += [("exactly uniform", [exact], "exactly-uniform", tight),
                     ("uniform within 1e-4, bound up to 1.001e-4", [uni], "near-uniform-weak", loose),
                     ("uniform within 1e-4", [uni], "near-uniform", Fraction(1, 10**6))]  # 1e-6: witnesses that survive the float replay
+    if all(n > 0 for n in shape):
+        # the same obligation at two seeded width sets (a stated concretisation, cf symbolic): keeps the refutation direction
+        # decidable (a wrong formula gives a one-variable query instead of a quartic in seven unknowns)
+        for tag, qs in (("large", [2, 3, 5, 7, 11, 13]), ("small", [Fraction(1, 2), Fraction(1, 3), Fraction(1, 5), Fraction(1, 7), Fraction(1, 11), Fraction(1, 13)])):
+            regimes.append((f"seeded {tag} widths", [w == z3.RealVal(q) for w, q in zip(ws, qs)], "metric-branch", tight))
     # the "weak" regime only quantifies the excess of the near-uniform finding (slow nonlinear query): its own thorough case
     regimes = [r for r in regimes if (r[2] == only if only else r[2] != "near-uniform-weak")]
     for nm, extra, ksfx, slack in regimes:
